@@ -107,7 +107,7 @@ func (x *Exec) mapFams(t types.Type) (dom, val []Family, ln Family) {
 	ks := kl[0].Sort
 	dom = []Family{{Name: "map." + key + ".dom", Sort: arrSort(SInt, arrSort(ks, SBool)), Root: RBox}}
 	for _, l := range leavesOf(m.Elem()) {
-		val = append(val, Family{Name: "map." + key + ".val" + sanitize(l.Path), Sort: arrSort(SInt, arrSort(ks, l.Sort)), Root: RBox, Leaf: l})
+		val = append(val, Family{Name: "map." + key + ".val" + sanitize(l.Path), Sort: arrSort(SInt, arrSort(ks, l.Sort)), Root: RBox, Leaf: l, KeySort: ks})
 	}
 	ln = Family{Name: "map." + key + ".len", Sort: arrSort(SInt, bvSort(64)), Root: RBox}
 	return
@@ -505,8 +505,27 @@ func (x *Exec) havoc(fr *Frame, ns, old *State, ms *ModSet, reach *Term, hint st
 	for _, k := range sortedFamKeys(ms.Fams) {
 		f := ms.Fams[k]
 		ns.fams[k] = f
+		prev := x.hp.heapGet(old, f)
 		ns.heap[k] = x.vc.fresh("H."+k, f.Sort)
 		x.hp.closedness(ns.heap[k], f, ns.ctr.S)
+		// every write of the region to this family is `p.f = v` with p a local variable the region
+		// does not assign: all other objects keep the field
+		if ts := ms.Targets[k]; len(ts) > 0 && !ms.Untargeted[k] && !ms.All {
+			var ne []string
+			okAll := true
+			for _, a := range ts {
+				id := fr.cells[a]
+				cur, have := ns.cells[id]
+				if id == nil || !have || ms.Cells[a] || cur.LV != nil || len(cur.L) != 1 {
+					okAll = false
+					break
+				}
+				ne = append(ne, fmt.Sprintf("(not (= r!t %s))", cur.L[0].S))
+			}
+			if okAll {
+				x.vc.assume(reach, mkRaw(fmt.Sprintf("(forall ((r!t Int)) (! (=> (and %s) (= (select %s r!t) (select %s r!t))) :pattern ((select %s r!t))))", strings.Join(ne, " "), ns.heap[k].S, prev.S, ns.heap[k].S), SBool))
+			}
+		}
 	}
 	for _, k := range sortedFamKeys(ms.AllocFams) {
 		f := ms.AllocFams[k]
@@ -1039,6 +1058,12 @@ func (x *Exec) reify(s *Sym) *Sym {
 	if lv.Root == RElem && lv.Off == 0 && lv.Sub == nil && lv.Byte == nil && kindOf(lv.RootT) == KStruct && types.Identical(lv.T, lv.RootT) && dualTypes[typeName(lv.RootT)] {
 		x.vc.theories["eref"] = true
 		t := x.vc.name("eref", app(SInt, "eref", lv.Ref, lv.Idx))
+		return scalar(s.T, t)
+	}
+	if (lv.Root == RStruct || lv.Root == RDual) && lv.Sub == nil && lv.Byte == nil && kindOf(lv.T) != KStruct {
+		x.vc.theories["fptr"] = true
+		k := fptrSiteK(lv.RootT, lv.Off, lv.T)
+		t := x.vc.name("fptr", app(SInt, "fptr", lv.Ref, mkInt64(int64(k))))
 		return scalar(s.T, t)
 	}
 	panic("executor-level pointer cannot be turned into a value: " + lv.String())
